@@ -489,26 +489,39 @@ Section Visitors.
      dict literal (looked up by visit_Subscript / visit_Attribute of the parent), events in order *)
   Definition fres := (expr * ty * list ty * list event)%type.
 
+  (* generic_visit over a list of children, left to right; [rec] is the visitor *)
+  Section Lists.
+    Variable rec : expr -> tres fres.
+    Fixpoint follow_list_with (l : list expr) : tres (list expr * list ty * list event) :=
+      match l with
+      | [] => Ok ([], [], [])
+      | x :: xs =>
+          bind (rec x) (fun '(x', t, _, ev) =>
+          bind (follow_list_with xs) (fun '(xs', ts, evs) => Ok (x' :: xs', t :: ts, ev ++ evs)))
+      end.
+  End Lists.
+
+  (* visited arguments [l'] of the written arguments [l], paired with the thunk that follows them as the lambda of
+     a collection operator: [rec G' body] is the transformer with the type environment G' *)
+  Section Nested.
+    Variable rec : tenv -> expr -> tres fres.
+    Variable G : tenv.
+    Fixpoint nested_args_with (l : list expr) (l' : list expr) : list aarg :=
+      match l, l' with
+      | x :: xs, x' :: xs' =>
+          (x', match x with
+               | Lambda [p] b => NLam p (fun item =>
+                                   bind (rec ((p, item) :: G) b) (fun '(b', t, _, ev) => Ok (b', t, ev)))
+               | Lambda _ _ => NBadArity
+               | _ => NNotLambda
+               end) :: nested_args_with xs xs'
+      | _, _ => []
+      end.
+  End Nested.
+
   Fixpoint follow_x (G : tenv) (e : expr) {struct e} : tres fres :=
-    let fl := fix fl (l : list expr) : tres (list expr * list ty * list event) :=
-                match l with
-                | [] => Ok ([], [], [])
-                | x :: xs =>
-                    bind (follow_x G x) (fun '(x', t, _, ev) =>
-                    bind (fl xs) (fun '(xs', ts, evs) => Ok (x' :: xs', t :: ts, ev ++ evs)))
-                end in
-    (* visited arguments paired with the thunk that follows them as an operator lambda *)
-    let nl := fix nl (l : list expr) (l' : list expr) : list aarg :=
-                match l, l' with
-                | x :: xs, x' :: xs' =>
-                    (x', match x with
-                         | Lambda [p] b => NLam p (fun item =>
-                                             bind (follow_x ((p, item) :: G) b) (fun '(b', t, _, ev) => Ok (b', t, ev)))
-                         | Lambda _ _ => NBadArity
-                         | _ => NNotLambda
-                         end) :: nl xs xs'
-                | _, _ => []
-                end in
+    let fl := follow_list_with (follow_x G) in
+    let nl := nested_args_with follow_x G in
     match e with
     | Name x => Ok (e, name_type G x, [], [])
     | Const c => Ok (e, const_type c, [], [])
